@@ -301,7 +301,20 @@ func corruptWEP(r *rng, w *model.WorkloadEndpoint) string {
 	}
 }
 
+// hepLabelStream: this case belongs to the dedicated stream in which host endpoints are made invalid by a label
+// that breaks the validator's "labels" rule (tokenizer.ValidLabel / labelValueRegex).  The main stream never does.
+var hepLabelStream bool
+
 func corruptHEP(r *rng, h *model.HostEndpoint) string {
+	if hepLabelStream {
+		m := h.Labels.RecomputeOriginalMap()
+		if m == nil {
+			m = map[string]string{}
+		}
+		m["a"] = "bad value!!"
+		h.Labels = uniquelabels.Make(m)
+		return "hep.bad-label-value"
+	}
 	switch r.intn(3) {
 	case 0:
 		h.Name = "bad/iface name!"
@@ -704,8 +717,9 @@ func (w *world) referenced(p int) bool {
 
 var conf = config.New()
 
-func runCase(r *rng, enc *json.Encoder, graph bool, uaStream bool, viaTypha bool) {
+func runCase(r *rng, enc *json.Encoder, graph bool, uaStream bool, viaTypha bool, hlStream bool) {
 	unknownActionStream, unknownActionUsed = uaStream, false
+	hepLabelStream = hlStream
 	const nProf, nPol, nTier = 4, 4, 3
 	epIDs := []int{0, 1, 2, 100, 101}
 
@@ -772,7 +786,7 @@ func runCase(r *rng, enc *json.Encoder, graph bool, uaStream bool, viaTypha bool
 				e := genEndpoint(r, nProf)
 				coqVal = "VEp " + coqEndpoint(e)
 				desc = fmt.Sprintf("set ep %d labels=%v profiles=%v", id, e.labels, e.profiles)
-				invalid := c == 9 || (c == 8 && exists)
+				invalid := c == 9 || (c == 8 && exists) || (hepLabelStream && id >= 100 && c >= 5)
 				if id >= 100 {
 					h, h2 := buildHEP(e), buildHEP(e)
 					if invalid {
@@ -948,6 +962,9 @@ func runCase(r *rng, enc *json.Encoder, graph bool, uaStream bool, viaTypha bool
 	if uaStream {
 		tags["stream:unknown-action"] = true
 	}
+	if hlStream {
+		tags["stream:hep-label"] = true
+	}
 	if viaTypha {
 		tags["pipeline:typha-filter+felix-filter"] = true
 	} else {
@@ -975,7 +992,7 @@ func runCase(r *rng, enc *json.Encoder, graph bool, uaStream bool, viaTypha bool
 		tl = append(tl, t)
 	}
 	sort.Strings(tl)
-	_ = enc.Encode(line{Coq: coq, NT: sawDummy && (sawReplace || sawInvalidOverValid || sawDeleteWhileRef), Key: fmt.Sprintf("graph=%v;ua=%v;typha=%v;", graph, uaStream, viaTypha) + strings.Join(keyParts, ";"),
+	_ = enc.Encode(line{Coq: coq, NT: sawDummy && (sawReplace || sawInvalidOverValid || sawDeleteWhileRef), Key: fmt.Sprintf("graph=%v;ua=%v;typha=%v;hl=%v;", graph, uaStream, viaTypha, hlStream) + strings.Join(keyParts, ";"),
 		Sample: map[string]any{"trace": sample}, Tags: tl})
 }
 
@@ -988,6 +1005,7 @@ func main() {
 	n := flag.Int("n", 100, "cases")
 	seed := flag.Uint64("seed", 1, "seed")
 	graphEvery := flag.Int("graph-every", 4, "every k-th case runs the whole calculation graph (0 = never)")
+	hlEvery := flag.Int("hep-label-every", 10, "every k-th case belongs to the invalid-host-endpoint-label stream (0 = never)")
 	uaEvery := flag.Int("unknown-action-every", 10, "every k-th case belongs to the unknown-rule-action stream (0 = never)")
 	flag.Parse()
 	log.SetLevel(log.PanicLevel)
@@ -999,6 +1017,6 @@ func main() {
 	enc := json.NewEncoder(os.Stdout)
 	enc.SetEscapeHTML(false)
 	for i := 0; i < *n; i++ {
-		runCase(r, enc, *graphEvery > 0 && i%*graphEvery == *graphEvery-1, *uaEvery > 0 && i%*uaEvery == *uaEvery-1, i%5 == 2)
+		runCase(r, enc, *graphEvery > 0 && i%*graphEvery == *graphEvery-1, *uaEvery > 0 && i%*uaEvery == *uaEvery-1, i%5 == 2, *hlEvery > 0 && i%*hlEvery == *hlEvery-5)
 	}
 }
